@@ -175,9 +175,7 @@ func BuildSchemaValidation(schema *openapi3.SchemaRef, validationString string, 
 				logger.Warn("Validation rule 'enum' must have at least one value")
 				schema.Value.Enum = nil
 			} else {
-				for _, v := range enumValues {
-					schema.Value.Enum = append(schema.Value.Enum, v)
-				}
+				schema.Value.Enum = typedEnumValues("enum", enumValues, specType)
 			}
 		case "oneof":
 			oneofValues := strings.Fields(ruleValue)
@@ -186,35 +184,38 @@ func BuildSchemaValidation(schema *openapi3.SchemaRef, validationString string, 
 				continue
 			}
 
-			schema.Value.Enum = make([]interface{}, 0, len(oneofValues))
-
-			switch specType {
-			case "string":
-				for _, v := range oneofValues {
-					schema.Value.Enum = append(schema.Value.Enum, v)
-				}
-			case "integer":
-				for _, v := range oneofValues {
-					if val, err := strconv.ParseInt(v, 10, 64); err == nil {
-						schema.Value.Enum = append(schema.Value.Enum, val)
-					} else {
-						logger.Warn("Invalid integer value in oneof: %s", v)
-					}
-				}
-			case "number":
-				for _, v := range oneofValues {
-					if val, err := strconv.ParseFloat(v, 64); err == nil {
-						schema.Value.Enum = append(schema.Value.Enum, val)
-					} else {
-						logger.Warn("Invalid number value in oneof: %s", v)
-					}
-				}
-			default:
-				logger.Warn("oneof validation for type %s might not be properly handled", specType)
-				for _, v := range oneofValues {
-					schema.Value.Enum = append(schema.Value.Enum, v)
-				}
-			}
+			schema.Value.Enum = typedEnumValues("oneof", oneofValues, specType)
 		}
 	}
+}
+
+// typedEnumValues converts the values of an 'enum' / 'oneof' rule to the schema's own type: strings for a string schema,
+// integers and numbers for numeric schemas (values that do not parse are dropped). Nil when no value applies.
+func typedEnumValues(ruleName string, values []string, specType string) []interface{} {
+	typed := make([]interface{}, 0, len(values))
+	for _, v := range values {
+		switch specType {
+		case "string":
+			typed = append(typed, v)
+		case "integer":
+			if val, err := strconv.ParseInt(v, 10, 64); err == nil {
+				typed = append(typed, val)
+			} else {
+				logger.Warn("Invalid integer value in %s: %s", ruleName, v)
+			}
+		case "number":
+			if val, err := strconv.ParseFloat(v, 64); err == nil {
+				typed = append(typed, val)
+			} else {
+				logger.Warn("Invalid number value in %s: %s", ruleName, v)
+			}
+		default:
+			logger.Warn("%s validation for type %s might not be properly handled", ruleName, specType)
+			typed = append(typed, v)
+		}
+	}
+	if len(typed) == 0 {
+		return nil
+	}
+	return typed
 }
